@@ -181,6 +181,9 @@ def run(chk, fb, tier):
     symmetry.rule_omitted_defaults(chk, fb, "C04.b.defaults")
     symmetry.rule_attr_fields(chk, fb, "C04.b.fields")
     symmetry.rule_parsed_as_stored(chk, fb, "C04.b.parsed")
+    symmetry.rule_empty_flag_attrs(chk, fb, "C04.b.emptyattrs")
+    symmetry.rule_attr_guards(chk, fb, "C04.b.guards")
+    symmetry.rule_empty_covers_children(chk, fb, "C04.b.children")
     from props import C02
 
     C02.rule_quote_inverse(chk, fb, "C04.a.quote")
